@@ -389,6 +389,26 @@ def verifyTx (lc : LC) (reqHash : Bytes) (res : ResultTx) : Verdict × LC :=
       else if H res.tx ≠ reqHash ∨ res.hash ≠ reqHash then (.errHashMismatch, lc')
       else (.ok, lc')
 
+/-- `Client.TxSearch` with `prove = true` (as repaired): every returned transaction, in order, is
+verified like the answer of `Tx` — against the header of the height IT names; `none` = nil element.
+Which transactions are returned (and `TotalCount`) is not, and cannot be, verified. -/
+def verifyTxSearch (lc : LC) : List (Option ResultTx) → Verdict × LC
+  | [] => (.ok, lc)
+  | none :: _ => (.errMeta, lc)
+  | some res :: rest =>
+    if res.height ≤ 0 then (.errHeight, lc) else
+    match updateTo lc (some res.height) with
+    | .err => (.errLC, lc)
+    | .ok l lc' =>
+      match TxProof.validate H l.header.dataHash res.proof with
+      | .error .dataHash => (.errProofDataHash, lc')
+      | .error .index => (.errProofIndex, lc')
+      | .error .total => (.errProofTotal, lc')
+      | .error .inconsistent => (.errProofInconsistent, lc')
+      | .ok _ =>
+        if res.proof.data ≠ res.tx ∨ H res.tx ≠ res.hash then (.errTxMismatch, lc')
+        else verifyTxSearch lc' rest
+
 /-! ## ConsensusParams -/
 
 structure Params where
@@ -587,6 +607,40 @@ def txSearch (txsAt : Int → List Bytes) (hits : List Hit) (order : String) (pr
     let pageHits := (sorted.drop skip.toNat).take n.toNat
     .ok (sorted.length, pageHits.map fun h =>
       (h, if prove then some (TxProof.proofFor H (txsAt h.height) h.index) else none))
+
+/-! ## every route of light/proxy/routes.go -/
+
+inductive RouteClass
+  | verified      -- the backend's answer is checked against light-verified headers (see `committed`)
+  | lightClient   -- answered from the light client's verified blocks alone, the backend is not asked
+  | relayed       -- the backend's answer is passed on unchanged, the light client is not consulted
+  | websocket     -- event subscriptions, relayed (marked UNSAFE in the source)
+deriving Repr, DecidableEq
+
+/-- What the verifying client does for each route the proxy registers. The relayed routes return
+node-local state no header commits to (status, net_info, health, consensus state dumps, mempool
+contents, abci_info), submit something (broadcast_*), or return data whose COMPLETENESS no header
+can prove (block_search; genesis is committed to only through the chain the caller already trusts).
+`tx` and `tx_search` are verified only with `prove=true`, and for `tx_search` only what IS returned. -/
+def routeClass : String → Option RouteClass
+  | "block" | "block_by_hash" | "blockchain" | "block_results" | "tx" | "abci_query"
+  | "consensus_params" => some .verified
+  | "commit" | "validators" => some .lightClient
+  | "tx_search" => some .verified
+  | "status" | "net_info" | "health" | "genesis" | "genesis_chunked" | "abci_info"
+  | "dump_consensus_state" | "consensus_state" | "unconfirmed_txs" | "num_unconfirmed_txs"
+  | "broadcast_tx_commit" | "broadcast_tx_sync" | "broadcast_tx_async" | "broadcast_evidence"
+  | "block_search" => some .relayed
+  | "subscribe" | "unsubscribe" | "unsubscribe_all" => some .websocket
+  | _ => none
+
+/-- the routes the proxy registers (compared with `RPCRoutes` on every run) -/
+def routeNames : List String :=
+  ["abci_info", "abci_query", "block", "block_by_hash", "block_results", "block_search", "blockchain",
+   "broadcast_evidence", "broadcast_tx_async", "broadcast_tx_commit", "broadcast_tx_sync", "commit",
+   "consensus_params", "consensus_state", "dump_consensus_state", "genesis", "genesis_chunked", "health",
+   "net_info", "num_unconfirmed_txs", "status", "subscribe", "tx", "tx_search", "unconfirmed_txs",
+   "unsubscribe", "unsubscribe_all", "validators"]
 
 /-! ## which trusted hash binds which field of an answer -/
 
